@@ -6,7 +6,7 @@ from props._cc import has, base_classes, same, outcome
 PROP = 'C02'
 LEVEL = 'exploration'
 RULE = ("stratified cases as C01 (directory archives also named by a RELATIVE path, existing or new, with the working directory changed during the history) plus session ops: re-decoration of a new function object on the same cache object, re-open of a fresh handle "
-        "on the same location, and a forked child process that re-creates the decorated function on the archive location and replays calls. "
+        "on the same location, a SECOND live decorated function with its own handle on the same location used in turn with the first (dump before each switch), and a forked child process that re-creates the decorated function on the archive location and replays calls. "
         "Oracle per call from the observed pre-state: retrievable := key resident or (archiving on and key in archive); the function is evaluated "
         "exactly once iff not retrievable, never when retrievable. non-trivial = a repeat call for a key that was evicted/purged/dumped earlier, or a "
         "repeat call after re-decoration/re-open/fork; distinct = (class, backend, outcome+evaluation sequence)")
@@ -18,11 +18,25 @@ N = {'quick': 500, 'thorough': 3000}
 SHARDS = {'quick': 4, 'thorough': 16}
 
 
+def _two_sessions(pair):
+    case, pick = pair
+    if pick and H.backend_persistent(case['backend']) and H.backend_archived(case['backend']) and not case.get('attach_later') and len(case['pool']) >= 2:
+        # constructed opening: two live decorated functions on the same location take turns; each asks for what the other has just computed and dumped
+        pre = [['call', 0, 0, 0], ['dumpswitch'], ['call', 1, 0, 0], ['dumpswitch'], ['call', 1, 0, 0], ['call', 0, 0, 0], ['dumpswitch'], ['call', 0, 1, 0], ['call', 1, 0, 0]]
+        case = dict(case, ops=pre + [op for op in case['ops'] if op[0] not in ('clear', 'clearkeep', 'arch_off')])
+    return case
+
+
 def strata(tier):
+    from hypothesis import strategies as st
+    return [(n, st.tuples(s, st.sampled_from([0, 0, 1])).map(_two_sessions)) for n, s in _strata(tier)]
+
+
+def _strata(tier):
     return G.strata_grid(
         maxsizes=(2, 1, 3, 5, None, 0),
         weights={'call': 16, 'burst': 1, 'load': 1, 'dump': 2, 'dumpk': 1, 'loadk': 1, 'clear': 1, 'clearkeep': 0,
-                 'arch_off': 1, 'arch_on': 1, 'awrite': 1, 'redecorate': 2, 'reopen': 1, 'dumpreopen': 2, 'fork': 1},
+                 'arch_off': 1, 'arch_on': 1, 'awrite': 1, 'redecorate': 2, 'reopen': 1, 'dumpreopen': 2, 'dumpswitch': 3, 'fork': 1},
         max_ops=30 if tier == 'quick' else 60, pool=(3, 7), prefill_pct=10, relpath_pct=40)
 
 
@@ -39,9 +53,9 @@ def per_call(case, tr, flags=None):
     global_ok = H.backend_archived(case['backend'])
     total = {}
     for i, s in enumerate(tr.steps):
-        if s.kind in ('arch_off', 'clear', 'clearkeep') or (s.kind == 'reopen' and (i == 0 or tr.steps[i - 1].kind != 'dump')):
+        if s.kind in ('arch_off', 'clear', 'clearkeep') or (s.kind in ('reopen', 'switch') and (i == 0 or tr.steps[i - 1].kind != 'dump')):
             global_ok = False
-        if s.kind in ('redecorate', 'reopen', 'fork'):
+        if s.kind in ('redecorate', 'reopen', 'fork', 'switch'):
             if s.exc is not None:
                 out.append(Discrepancy('C02/%s/raised/%s' % (s.kind, H.exc_sig(s.exc)), 'step %d: %r' % (i, s.exc)))
                 return out
@@ -53,6 +67,8 @@ def per_call(case, tr, flags=None):
                 if flags is not None:
                     flags['fork'] += 1
             after_switch = True
+            if flags is not None and s.kind == 'switch' and s.result == 'switched':
+                flags['two_live_sessions'] = flags.get('two_live_sessions', 0) + 1
             continue
         if s.kind != 'call':
             if s.exc is not None and not (s.kind in ('arch_on', 'arch_off') and isinstance(s.exc, ValueError)):
@@ -98,12 +114,12 @@ def run_case(case):
     tr = H.run_history(case, fork_check=per_call)
     flags = {'repeat_after_eviction': 0, 'repeat_after_switch': 0, 'fork': 0, 'ev': []}
     discrs = per_call(case, tr, flags)
-    classes = base_classes(case) + [k for k in ('repeat_after_eviction', 'repeat_after_switch', 'fork') if flags[k]]
+    classes = base_classes(case) + [k for k in ('repeat_after_eviction', 'repeat_after_switch', 'fork', 'two_live_sessions') if flags.get(k)]
     nt = None
     if flags['repeat_after_eviction'] or flags['repeat_after_switch']:
         nt = (case['module'], case['algo'], case['purge'], case['backend'], flags['ev'])
     return discrs, nt, sorted(set(classes))
 
 
-REQUIRED_CLASSES = ['relative_dir_archive:existing', 'chdir_away', 'repeat_after_eviction', 'repeat_after_switch', 'fork', 'module:safe', 'eff_algo:no', 'eff_algo:mru', 'eff_algo:lfu', 'eff_algo:rr']
+REQUIRED_CLASSES = ['two_live_sessions', 'relative_dir_archive:existing', 'chdir_away', 'repeat_after_eviction', 'repeat_after_switch', 'fork', 'module:safe', 'eff_algo:no', 'eff_algo:mru', 'eff_algo:lfu', 'eff_algo:rr']
 TRIGGERS = {}
